@@ -1252,6 +1252,50 @@ fn emit_doc_faults(seed: u64, tier: Tier, unit: u64, sink: &mut dyn FnMut(Plan) 
         jsonf::truncations(&text, &mut go);
         if let Ok(tree) = jsonf::parse(&text) {
             jsonf::structured_faults(&tree, &mut go);
+            // coordinated multi-field faults: subsets of fields made degenerate together -
+            // all subsets when there are at most 10 candidate fields, a seeded sample otherwise
+            let nodes = jsonf::degenerate_nodes(&tree);
+            let nodes: Vec<jsonf::Path> = nodes.into_iter().take(40).collect();
+            if nodes.len() <= 10 {
+                for mask in 0..(1u64 << nodes.len()) {
+                    if let Some(f) = jsonf::degenerate_combo(&tree, &nodes, mask) {
+                        go(f);
+                    }
+                }
+            } else {
+                let n = if tier == Tier::Quick { 300 } else { 2000 };
+                for _ in 0..n {
+                    // sparse random subsets (2..5 fields)
+                    let mut mask = 0u64;
+                    for _ in 0..rng.usize_in(2, 5) {
+                        mask |= 1u64 << rng.below(nodes.len() as u64);
+                    }
+                    if let Some(f) = jsonf::degenerate_combo(&tree, &nodes, mask) {
+                        go(f);
+                    }
+                }
+            }
+            // two or three independent random faults applied one after the other (sampled)
+            let nd = if tier == Tier::Quick { 120 } else { 800 };
+            for _ in 0..nd {
+                let mut cur = tree.clone();
+                let mut whats: Vec<String> = Vec::new();
+                let k = rng.usize_in(2, 3);
+                for _ in 0..k {
+                    let mut pick = |n: usize| rng.below(n.max(1) as u64) as usize;
+                    if let Some((next, w)) = jsonf::random_fault(&cur, &mut pick) {
+                        cur = next;
+                        whats.push(w);
+                    }
+                }
+                if whats.len() >= 2 {
+                    go(jsonf::Faulted {
+                        kind: "VALUE_ALTER",
+                        what: format!("several faults in sequence: {}", whats.join("; ")),
+                        text: jsonf::render(&cur),
+                    });
+                }
+            }
         }
         if tier == Tier::Thorough && text.len() <= 400 {
             // small documents: EVERY single-byte fault
@@ -2052,7 +2096,8 @@ impl Scenario for C20 {
     fn extra_coverage(tier: Tier) -> serde_json::Value {
         serde_json::json!({
             "documents": doc_units(tier),
-            "fault_subspaces_enumerated_completely_per_document": ["TRUNC (every byte offset)", "FIELD_DEL", "FIELD_DUP", "VALUE_ALTER (every scalar x every alternative, arrays, enum tags)", "MISDIRECT (every other loader)"],
+            "fault_subspaces_enumerated_completely_per_document": ["TRUNC (every byte offset)", "FIELD_DEL", "FIELD_DUP", "VALUE_ALTER (every scalar x every alternative, arrays, enum tags)", "MISDIRECT (every other loader)", "coordinated degenerate fields (every subset of the fields at depth 1..3 when there are at most 10, else sampled)"],
+            "multiple_faults": "two or three independent random structured faults in sequence, sampled (120 per document variant in quick, 800 in thorough)",
             "fault_subspaces_sampled": match tier { Tier::Quick => serde_json::json!(["BYTE (150 per document variant)", "SPLICE (40 offsets per document variant)"]), Tier::Thorough => serde_json::json!(["BYTE for documents longer than 400 bytes (600 per document variant); complete (every position x 34 replacements) for shorter ones"]) },
             "state_abstraction": "(loader, fault kind, outcome class in {error, accepted-but-altered, ok})",
             "fault_subspaces_enumerated_completely_in_thorough_only": ["SPLICE (every offset)"],
